@@ -129,6 +129,10 @@ pub fn public_key_der_from_cose_key(key: &CoseKey) -> Result<Bytes, Ctap2Error> 
         return Err(Ctap2Error::CborUnexpectedType);
     };
 
+    if x.len() != 32 || y.len() != 32 {
+        return Err(Ctap2Error::InvalidCredential);
+    }
+
     let point = EncodedPoint::from_affine_coordinates(
         GenericArray::from_slice(x.as_slice()),
         GenericArray::from_slice(y.as_slice()),
